@@ -105,6 +105,15 @@ def compares(fn):
             yield dict(block=b, op=sym[1], lhs=sym[2], rhs=sym[3], rl=render(sym[2]), rr=render(sym[3]), t=tt, f=ff, ln=t.get("ln"))
 
 
+def under_true_edge(fn, pred, x):
+    """block x is reached only through the true edge of a bool switch whose (shallow) symbolic
+    condition satisfies pred."""
+    for b, sym, tt, ff in bool_switches(fn):
+        if pred(sym) and fn.edge_dominates(b, tt, x):
+            return True
+    return False
+
+
 def bool_switches(fn):
     """Every bool switch: (block, sym, true_target, false_target) with negations normalised."""
     for b in sorted(fn.live_blocks):
@@ -433,3 +442,86 @@ def limit_rule(ctx, fx, fns, table, breach_adt, config, is_limit=None, rule="LIM
     for limit, row in table.items():
         ctx.floor("%s.%s" % (rule, limit.rsplit(".", 1)[-1]), len(seen[limit]), row.get("floor", 1), config)
     return seen
+
+
+# ---------------------------------------------------------------------------------------------
+# TABLE helpers — constants compared / mentioned in a function
+
+
+def _walk_consts(d, out):
+    if isinstance(d, dict):
+        if d.get("k") == "switch" and "vals" in d:
+            for v in d["vals"]:
+                if isinstance(v, int):
+                    out.append((v, d.get("ty", "int")))
+        c = d.get("c")
+        if isinstance(c, dict) and "v" in c:
+            out.append((c["v"], c["ty"]))
+        for v in d.values():
+            _walk_consts(v, out)
+    elif isinstance(d, list):
+        for v in d:
+            _walk_consts(v, out)
+
+
+def consts_of(fn, with_promoted=True):
+    """All evaluated constants (value, type) appearing as operands in fn (and its promoteds)."""
+    out = []
+    _walk_consts(fn.blocks, out)
+    if with_promoted:
+        for p in fn.d.get("promoted", []) or []:
+            _walk_consts(p.get("blocks", []), out)
+    return out
+
+
+def str_consts(fn):
+    return {v for v, ty in consts_of(fn) if isinstance(v, str) and ("str" in ty)}
+
+
+def char_consts(fn):
+    return {v for v, ty in consts_of(fn) if ty == "char"}
+
+
+def int_consts(fn):
+    return {v for v, ty in consts_of(fn) if isinstance(v, int) and not isinstance(v, bool)}
+
+
+def calls_to(fn, fx, pred):
+    """(block, term) of calls whose normalised callee satisfies pred."""
+    return [(b, t) for b, t in fn.calls() if pred(fx.callee(t))]
+
+
+def str_compare_consts(fn, fx):
+    """string literals that fn compares a value against (eq / eq_ignore_ascii_case / starts_with /
+    strip_prefix / ends_with / match on str)."""
+    out = {}
+    for b, t in fn.calls():
+        c = last_seg(fx.callee(t))
+        if c in ("eq", "ne", "eq_ignore_ascii_case", "starts_with", "ends_with", "strip_prefix", "strip_suffix", "contains"):
+            with fn.deep():
+                for a in t["args"]:
+                    s_ = fn.sym_operand(a)
+                    while s_[0] in ("ref", "deref"):
+                        s_ = s_[1]
+                    if s_[0] == "const" and isinstance(s_[1], str):
+                        out.setdefault(c, set()).add(s_[1])
+    return out
+
+
+def through_flag(fn, yes, no):
+    """`matches!(x, P)` lowers to arms that only set a bool temp and join on a switch over it;
+    follow that: returns the (yes, [no...]) edges *after* the flag switch when the shape matches."""
+    blk = fn.blocks[yes]
+    if len(blk["stmts"]) == 1 and blk["term"]["k"] == "goto":
+        s_ = blk["stmts"][0]
+        if s_["k"] == "assign" and not s_["p"]["pr"] and s_["rv"]["k"] == "use" and "c" in s_["rv"]["o"] and isinstance(s_["rv"]["o"]["c"].get("v"), bool):
+            j = blk["term"]["t"]
+            jt = fn.blocks[j]["term"]
+            if jt["k"] == "switch" and not fn.blocks[j]["stmts"]:
+                pl = jt["o"].get("mv") or jt["o"].get("cp")
+                if pl and pl["l"] == s_["p"]["l"] and not pl["pr"]:
+                    e = switch_edges(fn, j)
+                    if e:
+                        val = s_["rv"]["o"]["c"]["v"]
+                        return (e[0], [e[1]]) if val else (e[1], [e[0]])
+    return yes, no
